@@ -279,7 +279,16 @@ def compare_outcome(w, ev, real, pre, post, out):
     if exp["kind"] == "missing":
         # C07: right class, a node that is really absent and really needed
         if real["kind"] != "missing":
-            out.append(("C07", "missing-node-not-reported", {"action": a, "real": real}))
+            # the property allows the call to succeed, provided the result is the complete-database one
+            trie = w.batch if a in ("bset", "bget") and w.batch is not None else (w.t2 if ev.get("i") == 2 else w.t)
+            if real["kind"] == "ok" and "wroot" in ev and trie is not None and \
+                    trie.root_hash == rz.root_hash(ev["wroot"]):
+                out.append(("mirror", "call-succeeded-without-the-node-the-transcription-reads", {"action": a}))
+            elif real["kind"] == "val":
+                out.append(("mirror", "lookup-succeeded-without-the-node-the-transcription-reads", {"action": a}))
+            else:
+                out.append(("C07", "call-neither-reported-the-missing-node-nor-gave-the-complete-database-result",
+                            {"action": a, "real": real}))
             return
         trie_root = pre["broot"] if a in ("bset", "bget") else pre["root2" if ev.get("i") == 2 else "root"]
         if real["root"] != trie_root:
@@ -821,7 +830,7 @@ def replay(obj, mod, rz, opts=frozenset()):
             miss = [k for k in stored if k not in now_db]
             if miss and st.get("nlost", 0) == 0 and not any(e["a"] == "lose" for e in h):
                 out.append(("C05", "commit-missing-node-of-new-root", {"missing": miss[:3]}))
-            if not st["prune"]:
+            if not st["prune"] and not any(e["a"] in ("lose", "supply") for e in h):
                 if any(now_db.get(k) != v for k, v in begin[0].items()):
                     out.append(("C05", "commit-removed-existing-entry", {}))
             # pruning or not: whatever the commit added must be needed by the new root
